@@ -26,6 +26,22 @@ Sigs1(u) == WF({Mk(FK4[((r + p) % 4) + 1], r * 3 + p, RK[r], <<PK[p]>>, r + 2 * 
             \cup {Mk("opIndex", p + r, RK[r], <<PK[p]>>, 0) : p \in 1..10, r \in {5, 8, 12, 16, 17, 19}}
             \cup {Sig("opAsg", CL[((p + 2) % 6) + 1], 0, "objRef", <<PK[p]>>, 0) : p \in 1..20}
             \cup {Sig("opEq", CL[c], 0, "bool", <<"constObjRef">>, 0) : c \in 1..6})
+(* scoped enums with explicit underlying types, pointer-to-string parameters, array data members, compound
+   assignment operators with other results than *this, operator [] returning a reference *)
+NK == <<"enumC", "enumLL", "strPtr">>
+RK2 == <<"enumC", "enumLL", "i32", "string", "objRef", "void", "f64", "u8">>
+SigsR2(u) == WF({Mk(FK5[((r + p) % 5) + 1], r + 2 * p, RK2[r], <<NK[p]>>, r + p) : r \in 1..8, p \in 1..3}
+                \cup {Mk(FK4[((r + p) % 4) + 1], r + p, KindSeq[r + 21], <<PK[p]>>, r + p) : r \in 1..2, p \in 1..20}
+                \cup {Mk(FK4[((r + p) % 4) + 1], r + p, KindSeq[r + 21], <<>>, 0) : r \in 1..2, p \in 1..4}
+                \cup {Mk(FK5[((q + p) % 5) + 1], q + p, RK[((p * 7 + q) % 21) + 1], <<NK[p], PK[q]>>, p + q) : p \in 1..3, q \in {1, 5, 7, 12, 13, 16, 17, 19}}
+                \cup {Mk(FK5[((q + p) % 5) + 1], q + 2 * p, RK[((p * 5 + q) % 21) + 1], <<PK[q], NK[p]>>, p + q) : p \in 1..3, q \in {2, 6, 8, 11, 14, 15, 18, 20}}
+                \cup {Mk("ctor", p, "void", <<NK[p]>>, p) : p \in 1..3}
+                \cup {Sig("opCast", CL[r + 1], 0, KindSeq[r + 21], <<>>, 0) : r \in 1..2}
+                \cup {Sig("getter", "K0", 0, k, <<>>, 0) : k \in {"enumC", "enumLL", "arrObj"}}
+                \cup {Sig("setter", "K0", 0, "void", <<k>>, 0) : k \in {"enumC", "enumLL", "arrI32", "arrF32"}}
+                \cup {Sig("opAsg", CL[((p + r) % 6) + 1], 0, r2, <<PK[p]>>, 0) : p \in {1, 5, 7, 11, 13, 16, 17, 19, 20}, r \in 1..2, r2 \in {"i32", "objVal"}}
+                \cup {Sig("opIndexRef", CL[c], 0, "void", <<k, "i32">>, 0) : c \in 1..6, k \in {"i32", "u8", "i64", "enumC"}})
+
 \* two parameters: every pair of parameter kinds (stride thins the set for the quick tier)
 P2(stride) == {x \in (1..20) \X (1..20) : (x[1] + 3 * x[2]) % stride = 0}
 C2(stride) == {x \in (1..20) \X (1..20) : (x[1] + x[2]) % (4 * stride) = 0}
@@ -39,8 +55,8 @@ Sigs3(u) == WF({Mk(FK5[((x[1] + x[2] + x[3]) % 5) + 1], x[1] + x[3], RK[((x[1] +
 
 
 \* (operators with a parameter are evaluated on demand; TLC would evaluate constants of every tier eagerly)
-QuickChoices(l) == Sigs0(0) \cup Sigs1(0) \cup Sigs2(3)
-ThoroughChoices(l) == Sigs0(0) \cup Sigs1(0) \cup Sigs2(1) \cup Sigs3(0)
+QuickChoices(l) == Sigs0(0) \cup Sigs1(0) \cup Sigs2(3) \cup SigsR2(0)
+ThoroughChoices(l) == Sigs0(0) \cup Sigs1(0) \cup Sigs2(1) \cup Sigs3(0) \cup SigsR2(0)
 
 PickAll(S) == S
 
@@ -58,13 +74,14 @@ URet == <<"i32", "u64", "string", "f64", "void", "u8", "enum", "i16", "bool">>
 UPre == <<<<>>, <<>>, <<>>, <<>>, <<>>, <<>>, <<>>, <<"u8">>, <<"f64">>>>
 NU == 9
 USig(u, k) == Sig(UFk[u], UCls[u], u, URet[u], UPre[u] \o <<k>>, 0)
-Groups == <<<<"string", "cstr", "bool">>, <<"objPtr", "bool", "u32", "constObjRef">>, <<"i8", "i16", "i32", "i64", "long">>,
-            <<"u8", "u16", "u32", "u64", "ulong">>, <<"f32", "f64", "i32">>, <<"enum", "i32", "u32", "bool">>>>
+Groups == <<<<"string", "cstr", "bool", "strPtr">>, <<"objPtr", "bool", "u32", "constObjRef">>, <<"i8", "i16", "i32", "i64", "long">>,
+            <<"u8", "u16", "u32", "u64", "ulong">>, <<"f32", "f64", "i32">>, <<"enum", "i32", "enumC", "enumLL", "i64">>>>
 GFk  == <<"free", "method", "static", "cmethod", "opCall", "ctor">>
 GCls == <<"-", "K1", "Mix", "K0", "K3", "K2">>
 GRet == <<"u16", "i64", "cstr", "f32", "i32", "void">>
 GSig(g, f, k) == Sig(GFk[f], GCls[f], 100 + 10 * g + f, GRet[f], <<k>>, 0)
-OvlAlpha == WF({USig(u, PK[k]) : u \in 1..NU, k \in 1..20}
+PKX == [i \in 1..23 |-> IF i <= 20 THEN KindSeq[i] ELSE KindSeq[i + 1]]      \* ... and enumC, enumLL, strPtr
+OvlAlpha == WF({USig(u, PKX[k]) : u \in 1..NU, k \in 1..23}
                \cup {GSig(x[1], x[2], Groups[x[1]][x[3]]) : x \in {y \in (1..6) \X (1..6) \X (1..5) : y[3] <= Len(Groups[y[1]])}})
 LastKind(s) == KindIdx(s.ps[Len(s.ps)])
 OvlNext(l, allPairs) ==
@@ -87,6 +104,9 @@ CPost(p) == [o \in 1..Len(p) |-> IF p[o].live THEN <<p[o].st, p[o].bst, p[o].tg>
 CStep(st) ==
   CASE st.op = "new" -> [op |-> "new", obj |-> st.obj, cls |-> st.cls, s |-> SigIdx(st.sig), k |-> st.k, args |-> st.args,
                          post |-> CPost(st.post)]
+    [] st.op = "call" /\ st.sig.fk = "opIndexRef" ->
+                        [op |-> "call", s |-> SigIdx(st.sig), k |-> st.k, this |-> st.this, args |-> st.args, ret |-> st.ret,
+                         rb |-> st.rb, item |-> st.item, post |-> CPost(st.post)]
     [] st.op = "call" /\ st.sig.fk = "setter" ->
                         [op |-> "call", s |-> SigIdx(st.sig), k |-> st.k, this |-> st.this, args |-> st.args, ret |-> st.ret,
                          rb |-> st.rb, post |-> CPost(st.post)]
